@@ -306,6 +306,27 @@ def opPaths (j : Json) : Json :=
     ("one", match Paths.findOne g ident with | some v => toJson (String.ofList v) | none => Json.null),
     ("to", js (Paths.getTo g ident)), ("from", js (Paths.getFrom g ident))]
 
+/-! op `byline`: members (scan text, cwnm, matcher script) × records → caller lines and every
+    member's collected lines and final flags, from the breadth-first model -/
+def opByLine (j : Json) : Json :=
+  let recs := (getArr j "recs").toList.map recOfJson
+  let ifAll := getBool j "if_all_agree"
+  let ms := (getArr j "members").toList
+  let parsed := ms.map (fun mj => (parseScanText (getStr mj "scan"), getBool mj "cwnm",
+      (getArr mj "script").toList.map entryOfJson))
+  if parsed.any (fun p => match p.1 with | .error _ => true | .ok _ => false) then
+    Json.mkObj [("error", toJson "scan")]
+  else
+    let members : List (Group.Member Script) := parsed.map (fun p =>
+      { m := scripted, scan := (match p.1 with | .ok s => s | .error _ => {}), cwnm := p.2.1 })
+    let inits : List (Run.LoopSt Script) := parsed.map (fun p => { ms := { todo := p.2.2 } })
+    let out := Group.byLine members ifAll recs inits
+    Json.mkObj [("caller", Json.arr (out.1.map jsonOfRec).toArray),
+      ("members", Json.arr (out.2.map (fun x => Json.mkObj [
+        ("lines", Json.arr (x.lines.map jsonOfRec).toArray), ("flags", jsonOfFlags x.st.fl),
+        ("scan_count", toJson x.st.scanCount), ("script_left", toJson x.st.ms.todo.length),
+        ("underflow", toJson x.st.ms.underflow)])).toArray)]
+
 def handle (line : String) : Json :=
   match Json.parse line with
   | .error e => Json.mkObj [("error", toJson s!"bad-json: {e}")]
@@ -319,6 +340,7 @@ def handle (line : String) : Json :=
     else if op == "policy" then opPolicy j
     else if op == "files" then opFiles j
     else if op == "paths" then opPaths j
+    else if op == "byline" then opByLine j
     else Json.mkObj [("error", toJson s!"bad-op: {op}")]
 
 partial def loop (h : IO.FS.Stream) (out : IO.FS.Stream) : IO Unit := do
